@@ -37,7 +37,7 @@ def share : ShareFacts :=
 
 /-- fingerprints (extract/common FuncHash) of the functions Model/Share.lean was transcribed from -/
 def sourceHashes : List (String × String) :=
-  [("assign", "bc12620dcf6fb973"),
+  [("assign", "59eb4dfab86ac553"),
    ("assignFromCall", "68cf8ed8c8ebe68c"),
    ("addr", "bebc2c833afadc2f"),
    ("deref", "8f80a1442107d364"),
